@@ -65,7 +65,7 @@ def judge(req, obs):
 def run(ctx):
     res = Result("model_checking")
     res.rule = ("E3: all write histories of depth 3 (quick) / 4 (thorough) per file type (certificate, private key, account) over 4 contents of "
-                "different lengths, from {absent, empty, 20 kB garbage}, through the real storage functions; after each write the file equals what was written "
+                "different lengths, from {absent, empty, 20 kB garbage, symbolic link to a 20 kB file, dangling symbolic link}, through the real storage functions; after each write the file equals what was written "
                 "(account: same length as saved into an empty directory, and loads back equal). E1: histories of 1..3 consecutive issuances with chain lengths "
                 "{1..4}^k and alternating key types in one path, and issuances into paths that already hold an existing pair, another client's pair (secp256k1; RSA-3072 in thorough), "
                 "a truncated or an empty key file, with kp_reuse off and on; certificate file = served body, key file = CSR key.")
